@@ -19,9 +19,9 @@ ID = 'C19'
 LEVEL = 'model_checking'
 RULE = (
     'all hopping-model traces for the listed bounds x all n_parts in 1..min(#events, frames-1): real '
-    'Transitions.split, per-part Jumps, Jumps.split, Jumps.rates; plus Trajectory.split for every '
+    'Transitions.split, per-part Jumps, Jumps.split (also with minimal_residence=3), Jumps.rates; plus Trajectory.split for every '
     'length 2..Lmax x every n_parts < length x equal_parts in {False, True} on trajectories whose frames '
-    'are individually identifiable; distinct = distinct (n_parts, per-part event tables) outcomes'
+    'are individually identifiable (source in position or displacement mode); distinct = distinct (n_parts, per-part event tables) outcomes'
 )
 LEVEL_TEXT = (
     'Exhaustive over all site histories up to the bound and all admissible numbers of parts; for '
